@@ -134,6 +134,7 @@ def run(ctx):
 
     # ---- dict conversion
     dict_order(ctx, repo, "C16.dictorder")
+    dict_roundtrip(ctx, repo, "C16.dictrt")
     for cn in CLASSES:
         C = repo.cls(f"{SAMPLES_MOD}:{cn}")
         td, fd = C.resolve("to_dict"), C.resolve("from_dict")
@@ -143,6 +144,85 @@ def run(ctx):
         ctx.decide(not bad, "C16.dict", f"{cn}.to_dict/from_dict", loc_of(fd),
                    f"every key emitted by to_dict ({len(emitted)}) is consumed or accepted by from_dict -> {cn}(...)" + (" (filtered to constructor fields)" if filters else ""),
                    f"to_dict emits {bad} which {cn}.__init__ does not accept and from_dict passes through **dictionary: {cn}.from_dict({cn}.to_dict()) raises TypeError", disc=cn)
+
+
+def dict_roundtrip(ctx, repo, rule):
+    """from_dict(to_dict(s)) is folded as one composition, per concrete class and per
+    layout (flat / nested): the field loop of to_dict is unrolled over the class's
+    dataclass fields, the resulting literal dict is fed to from_dict, and the
+    constructor call must receive every constructor field with the value of the same
+    field of the source, x rebuilt column by column by parameter name, in the source's
+    namespace."""
+    Pself, Xself = self_attr("parameters"), self_attr("x")
+
+    def x_ok(x):
+        if not (x[0] == "f" and x[1] == "stack" and x[2] and dict(x[3]).get("axis") == T.neg(T.ONE)):
+            return False
+        lc = x[2][0]
+        if not (lc[0] == "f" and lc[1] == "listcomp" and len(lc[2]) == 2):
+            return False
+        body, gen = lc[2]
+        if gen != ("t", (Pself, ("t", ()))) or body[0] != "s" or body[2] != ("f", "elem", (Pself,), ()):
+            return False
+        m = body[1]
+        if m[0] == "d":
+            sp = [v for k, v in m[1] if k == T.K("**")]
+            if len(sp) != 1:
+                return False
+            m = sp[0]
+        if not (m[0] == "f" and m[1] == "builtins.dict" and len(m[2]) == 1):
+            return False
+        z = m[2][0]
+        return z[0] == "f" and z[1] == "builtins.zip" and len(z[2]) == 2 and z[2][0] == Pself and z[2][1] == ("attr", Xself, "T")
+
+    n = 0
+    for cn in CLASSES:
+        C = repo.cls(f"{SAMPLES_MOD}:{cn}")
+        td, fd = C.resolve("to_dict"), C.resolve("from_dict")
+        for flat in (True, False):
+            tag = f"{cn}|{'flat' if flat else 'nested'}"
+            construct = f"{cn}.from_dict({cn}.to_dict(flat={flat}))"
+            ev = Evaluator(repo, max_depth=1, assume=lambda c, flat=flat: flat if c == T.atom("flat") else None)
+            ev.transparent_extra = {"deepcopy"}  # a copy has the value of its argument
+            D = T.strip_raise(ev.run(td, C))
+            if not (D[0] == "d" and all(k[0] == "k" for k, _ in D[1])):
+                ctx.unknown(rule, construct, loc_of(td), f"to_dict(flat={flat}) could not be folded to a literal dict: {T.show(D)[:160]}", disc=tag)
+                continue
+
+            def assume(c):
+                if c[0] == "in" and c[1] == T.K("samples") and c[2][0] == "d":
+                    return any(k == T.K("samples") for k, _ in c[2][1])  # parameter names do not collide with the reserved keys
+                if c == ("is", Pself, T.NONE):
+                    return False  # __post_init__ always sets parameter names
+                return None
+            ev2 = Evaluator(repo, max_depth=1, assume=assume)
+            ev2.run(fd, C, args={fd.params[1]: D})
+            news = [e for e in ev2.events if e.callee.startswith("new:") and e.depth == 0]
+            if len(news) != 1 or news[0].callee != f"new:{C.ident}":
+                ctx.refute(rule, construct, loc_of(fd), f"from_dict does not end in exactly one {cn}(...) construction", disc=tag)
+                continue
+            kw = dict(news[0].kwargs)
+            if any(k in ("**",) for k in kw) or news[0].args:
+                ctx.unknown(rule, construct, loc_of(fd, news[0].node), f"constructor arguments not resolved: {sorted(kw)}", disc=tag)
+                continue
+            n += 1
+            bad = []
+            for f in C.init_fields():
+                v = kw.get(f.name)
+                if f.name == "x":
+                    if v is None or not x_ok(v):
+                        bad.append(f"x is rebuilt as {T.show(v)[:120] if v else 'nothing'}, not one column per parameter name in parameter order")
+                elif v is None:
+                    bad.append(f"{f.name} is dropped (the rebuilt set falls back to its default)")
+                elif v != self_attr(f.name):
+                    bad.append(f"{f.name} = {T.show(v)[:80]} instead of the source's {f.name}")
+            extra = sorted(k for k in kw if k not in {f.name for f in C.init_fields()})
+            if extra:
+                bad.append(f"{extra} are passed to {cn}(...) which does not accept them (TypeError)")
+            ctx.decide(not bad, rule, construct, loc_of(fd, news[0].node),
+                       f"every constructor field of {cn} ({len(C.init_fields())}) is rebuilt from the same field of the source; x by parameter name; same xp",
+                       "; ".join(bad[:3]), disc=tag)
+    ctx.floor("dict round trips folded", n, 6)
 
 
 def dict_order(ctx, repo, rule):
@@ -257,7 +337,18 @@ MUTANTS += [
     M("SMC concatenate loses beta", _S, "if all(s.beta == first.beta for s in samples):\n            out.beta = first.beta\n", "", "C16.cat"),
     M("SMC concatenate takes evidence of the last piece only", _S, "out.log_evidence = first.log_evidence", "out.log_evidence = None", "C16.cat"),
 ]
+MUTANTS += [
+    M("to_dict keeps only the skipped fields", _S, 'if name in ["x", "xp"]:\n                continue', 'if name not in ["x", "xp"]:\n                continue', "C16.dictrt"),
+    M("to_dict stores None for every set field", _S, "if value is None:\n                out[name] = None", "if value is not None:\n                out[name] = None", "C16.dictrt"),
+    M("to_dict forgets the namespace", _S, 'out["xp"] = self.xp\n', "", "C16.dictrt"),
+    M("to_dict skips the proposal density", _S, 'if name in ["x", "xp"]:', 'if name in ["x", "xp", "log_q"]:', "C16.dictrt"),
+    M("from_dict drops everything but the coordinates", _S, "return cls(x=x, parameters=parameters, **dictionary)", "return cls(x=x, parameters=parameters)", "C16.dictrt"),
+    M("from_dict filters on non-constructor fields", _S, "init_names = {f.name for f in fields(cls) if f.init}", "init_names = {f.name for f in fields(cls) if not f.init}", "C16.dictrt"),
+    M("from_dict swaps prior and likelihood", _S, "return cls(x=x, parameters=parameters, **dictionary)", 'dictionary["log_prior"], dictionary["log_likelihood"] = dictionary.get("log_likelihood"), dictionary.get("log_prior")\n        return cls(x=x, parameters=parameters, **dictionary)', "C16.dictrt"),
+]
 NEUTRALS = [
+    M("to_dict without the defensive try", _S, "try:\n                    out[name] = deepcopy(value) if copy else value\n                except Exception:\n                    out[name] = value", "out[name] = deepcopy(value) if copy else value"),
+    M("to_dict skip test as a tuple", _S, 'if name in ["x", "xp"]:', 'if name in ("x", "xp"):'),
     M("selection via temporaries", _S, "return self.__class__(\n            x=self.x[idx],", "xs = self.x[idx]\n        return self.__class__(\n            x=xs,", within="BaseSamples.__getitem__"),
     M("concatenate keyword order", _S, "parameters=samples[0].parameters,\n            dtype=samples[0].dtype,", "dtype=samples[0].dtype,\n            parameters=samples[0].parameters,"),
 ]
